@@ -52,6 +52,15 @@ PROPS = {
         "assumptions": ["encoding/json emits exactly the tagged fields (tags tied by regenerated facts)"],
         "trusted_base": ["txpk record of the Semtech protocol transcribed as Props/C17.lean specTxpk"],
     },
+    "C19": {
+        "theorems": {**thms(P + "C19", ["C19_counter_bits", "C19_injective", "C19_netid_embedded", "C19_prefix"]),
+                     **thms(P + "C19Alloc", ["inv_step", "C19_never_twice"])},
+        "ties": thms(T + "Keys", ["tie_maxID", "tie_maSizes", "tie_maxNetIDs", "tie_intervals"]),
+        "engines": ["eui", "keygen"],
+        "assumptions": ["one reservation (AllocateKeys) is atomic: it runs under the storage mutex inside one SQLite transaction; a crash inside it is a rollback (before commit) or a lost block (after commit)",
+                        "one process per database file"],
+        "trusted_base": ["SQLite transaction atomicity and durability", "crash = goroutines abandoned at the verif gates inside AllocateKeys, transaction rolled back, fresh Storage on the same file"],
+    },
     "C14": {
         "theorems": thms(P + "C14", ["C14_eq_rfc4493", "C14_pure"]),
         "ties": thms(T + "Cmac", ["tie_constBSize", "tie_constZero", "tie_constRb"]),
@@ -91,6 +100,11 @@ MANIFEST_TEXT = {
         "level": "Lean theorems: the PULL_RESP goes to the uplink's host and the port of the latest PULL_DATA of that gateway (induction over arbitrary datagram sequences), txpk = independent spec record with tmst = (clock + delay*10^6) mod 2^32 always present. Tied by regenerated JSON tags (no omitempty on tmst), frequency table, multiplier and encoder delays (5 / 1), and by real PULL_RESP datagrams parsed field by field incl. wrapping clocks.",
         "note": "JSON encoder trusted given the tags; delay values 1/5 come from the encoder (tied by fact), the pipeline-level delay choice is covered with the pipeline engine",
         "technique": "Lean 4 proof (induction over datagram sequences, arithmetic mod 2^32) + regenerated-facts tie + trace comparison",
+    },
+    "C19": {
+        "level": "Lean theorems: for MA-L/M/S and every admissible network id the EUI's low 25 bits are the counter (hence C19_injective over the whole advertised key space), the prefix bits are the MA's, the network id is embedded; allocator transition system (any number of requesters, reservations, hand-outs, restarts, crashes before/after commit): C19_never_twice by invariant induction over unbounded event lists. Tied by regenerated maxID / MA sizes / NetID limits / block sizes, 40k packing cases and real KeyGenerator runs (8 concurrent requesters, restart, crash at each of the four allocator gates, last blocks of the key space for odd and even network ids).",
+        "note": "real process death and SQLite durability are simulated/trusted (partial); AllocateKeys' commit error being only logged is a fault, outside this property's quantifier",
+        "technique": "Lean 4 proof (bit packing by decide + omega; invariant induction over event lists) + regenerated-facts tie + differential and oracle runs on the real allocator",
     },
     "C14": {
         "level": "Lean theorem C14_eq_rfc4493: for every block function E, every key and every message length the model of AESCMAC equals RFC 4493 (bit-string spec); model tied to pkg/cmac by regenerated constants and by differential runs (tag and caller's backing array compared) on every length 0..96 (quick) / 0..1024 x capacities 0..64 (thorough). Purity is decided by the correspondence/oracle on the real code; the Lean statement C14_pure covers the model's copy semantics only.",
